@@ -98,6 +98,13 @@ pub struct VmState {
     pub weak_round: usize,
     pub worker_threads: Vec<std::thread::JoinHandle<()>>,
     pub record_copies: bool,
+    /// C13 oracle: addresses (before the collection) of the objects that must be reachable when
+    /// `process_weak_refs` is called for the k-th time: `expected_stages[0]` = strong closure of
+    /// the roots, `expected_stages[k]` = what round k's tracing adds (transitively).  Empty = no
+    /// expectation (collections the harness did not request itself).
+    pub expected_stages: Vec<Vec<usize>>,
+    /// failures detected inside upcalls (reported by the harness after the collection)
+    pub oracle_failures: Vec<String>,
 }
 
 unsafe impl Send for VmState {}
@@ -149,6 +156,8 @@ pub fn init_state() {
         weak_round: 0,
         worker_threads: vec![],
         record_copies: false,
+        expected_stages: vec![],
+        oracle_failures: vec![],
     });
 }
 
@@ -412,9 +421,20 @@ impl Collection<VerifVM> for VerifVM {
     where
         F: FnMut(&'static mut Mutator<VerifVM>),
     {
+        // The harness thread plays every mutator.  Every pause in this tree is requested from a
+        // mutator poll site or a user request, both of which are followed by `block_for_gc`: the
+        // world is stopped once the harness thread has arrived there (a collection must not run
+        // while the requesting mutator is still between the poll and `block_for_gc`, e.g. with a
+        // page reservation pending in `Space::acquire`).
+        let t0 = std::time::Instant::now();
+        while !BLOCKED.load(Ordering::SeqCst) {
+            std::thread::yield_now();
+            if t0.elapsed().as_secs() > 60 {
+                eprintln!("VerifVM: stop_all_mutators waited 60 s for the mutator to block");
+                std::process::exit(3);
+            }
+        }
         log_event(VmEvent::StopAllMutators);
-        // The harness thread plays every mutator; it is inside block_for_gc (or, for concurrent
-        // plans, waits at its next operation boundary) while the world is stopped.
         let ms: Vec<(usize, *mut Mutator<VerifVM>)> = with_state(|s| {
             s.gc_active = true;
             s.mutators.iter().map(|m| (m.tls, m.mutator)).collect()
@@ -552,10 +572,25 @@ impl Scanning<VerifVM> for VerifVM {
         // the values of all entries whose key is currently reachable and that were not retained
         // before; if any value was newly retained another round is needed (it may have made more
         // keys reachable).  Entries whose key stays unreachable are dropped in the last round.
-        let (table, round) = with_state(|s| {
+        let (table, round, stages) = with_state(|s| {
             s.weak_round += 1;
-            (s.ephemerons.clone(), s.weak_round)
+            (s.ephemerons.clone(), s.weak_round, s.expected_stages.clone())
         });
+        // C13 oracle: the closure of everything traced so far must be complete now.
+        if !stages.is_empty() {
+            let mut missing = vec![];
+            for (k, st) in stages.iter().enumerate().take(round) {
+                for a in st {
+                    let o = ObjectReference::from_raw_address(unsafe { Address::from_usize(*a) }).unwrap();
+                    if !o.is_reachable() {
+                        missing.push((k, *a));
+                    }
+                }
+            }
+            if let Some((k, a)) = missing.first() {
+                with_state(|s| s.oracle_failures.push(format!("weak:closure_incomplete|process_weak_refs call #{} ran while object {:#x} (closure stage {}) was not yet reached; {} such objects", round, a, k, missing.len())));
+            }
+        }
         if table.is_empty() {
             log_event(VmEvent::ProcessWeakRefs { round, more: false });
             with_state(|s| s.weak_round = 0);
@@ -563,11 +598,14 @@ impl Scanning<VerifVM> for VerifVM {
         }
         let mut new_table = vec![];
         let mut traced_any = false;
+        // liveness of every key is sampled before anything is traced in this round, so that the
+        // number of rounds is exactly the depth of the ephemeron chains (deterministic)
+        let key_live: Vec<bool> = table.iter().map(|(k, _)| ObjectReference::from_raw_address(unsafe { Address::from_usize(*k) }).unwrap().is_reachable()).collect();
         tracer_context.with_tracer(worker, |tracer| {
-            for (k, v) in table.iter().copied() {
+            for (i, (k, v)) in table.iter().copied().enumerate() {
                 let ko = ObjectReference::from_raw_address(unsafe { Address::from_usize(k) }).unwrap();
                 let vo = ObjectReference::from_raw_address(unsafe { Address::from_usize(v) }).unwrap();
-                if ko.is_reachable() {
+                if key_live[i] {
                     let nk = ko.get_forwarded_object().unwrap_or(ko);
                     let was_reachable = vo.is_reachable();
                     let nv = tracer.trace_object(vo);
